@@ -47,7 +47,7 @@ Sparse == salloc # Cells                       \* probably_sparse(): fewer block
 Min(a, b) == IF a < b THEN a ELSE b
 
 Junk == 99                                     \* content of a previous destination
-Priors == { <<>>, <<Junk>>, [i \in 1..(MaxL + 1) |-> Junk] }
+Priors(n) == { <<>>, <<Junk>>, [i \in 1..(MaxL + 1) |-> Junk], [i \in 1..n |-> Junk] }    \* absent, shorter, longer, same length
 
 Init ==
   /\ len \in 0..MaxL
@@ -56,7 +56,7 @@ Init ==
   /\ bs \in BlockSizes
   /\ reflink \in {"auto", "never", "always"}
   /\ kcopy \in {"cfr", "uspace"}               \* copy_file_range works, or fails with ENOSYS/EXDEV/EPERM (user-space loops)
-  /\ dst \in Priors
+  /\ dst \in Priors(len)
   /\ dalloc = 1..Len(dst)
   /\ pc = "create" /\ pos = 0 /\ segEnd = 0 /\ cur = 0 /\ want = 0
   /\ exts = <<>> /\ jobs = {} /\ result = "run"
